@@ -18,7 +18,7 @@
    [spec_pass] (Proofs.v) is the table of the property text, transcribed
    independently of the code. *)
 From Coq Require Import ZArith List Bool.
-From Verif Require Import C07.Model C07.Proofs C07.Reconf gen.Gen_C07.
+From Verif Require Import C07.Model C07.Proofs C07.Reconf C07.Timed gen.Gen_C07.
 Import ListNotations.
 Open Scope Z_scope.
 
@@ -503,6 +503,153 @@ Theorem c07_reconf_loops_isolated :
     rtrace H K (if b then cf1 else cf0) (if b then bc1 else bc0) (proj b tops).
 Proof. exact reconf_loops_isolated_proof. Qed.
 Print Assumptions c07_reconf_loops_isolated.
+
+(* ---------------------------------------------------------------------- *)
+(* Time.  An agent's express() takes time, and the loop keeps a `timeout_seconds` in a public
+   attribute.  A timed history [top] is a history with reconfiguration ([TPlain o]) in which a
+   request carried out in one go may say how long each of its agents needs before it answers
+   ([TSlow q d], [d_exec d] / [d_assess d]; [elapsed q d] = the time the request spends inside the
+   agents it asks) and in which timeout_seconds may be assigned ([TSetTimeout v]) anywhere.
+   [ttrace H K tmo0 cf0 bc0 ops] has one event per operation, each paired with the timeout in force;
+   [untimed] leaves the timeouts out (events as in [rtrace]).  The property speaks of "the
+   executor's and the risk assessor's verdicts" - not of verdicts that came in time: the theorems
+   below hold for ALL delays and ALL timeouts, so a verdict that comes late is still the verdict
+   (a BLOCK that took longer than timeout_seconds blocks), and no timeout ever changes a reply. *)
+
+(* The histories of all theorems above are the timed histories without slow requests and without
+   assignments of timeout_seconds (whatever the timeout at construction). *)
+Theorem c07_timed_plain_is_reconf :
+  forall (H K : str -> str) tmo cf bc ops,
+    ttrace H K tmo cf bc (map TPlain ops) = map (pair tmo) (rtrace H K cf bc ops).
+Proof. exact timed_plain_is_reconf_proof. Qed.
+Print Assumptions c07_timed_plain_is_reconf.
+
+(* timeout_seconds is inert: the events of a timed history - every reply, every cache size - are the
+   same whatever the timeout at construction ([tmo] / [tmo']) and whatever values are assigned to it
+   later ([g] replaces each assigned value by another): no agent is ever "timed out". *)
+Theorem c07_timed_timeout_is_inert :
+  forall (H K : str -> str) (g : Z -> Z) tmo tmo' cf bc ops,
+    untimed (ttrace H K tmo cf bc ops) = untimed (ttrace H K tmo' cf bc (map (retime g) ops)).
+Proof. exact timeout_inert_proof. Qed.
+Print Assumptions c07_timed_timeout_is_inert.
+
+(* The timeout and the configuration in force at an event are those given at construction with the
+   assignments made so far applied in order. *)
+Theorem c07_timed_config_in_force :
+  forall (H K : str -> str) tmo0 cf0 bc0 ops i tmo e,
+    nth_error (ttrace H K tmo0 cf0 bc0 ops) i = Some (tmo, e) ->
+    (tmo, rev_config e) = tconfig_after (tmo0, (cf0, bc0)) (firstn (S i) ops).
+Proof. exact timed_config_in_force_proof. Qed.
+Print Assumptions c07_timed_config_in_force.
+
+(* A request whose agents answer at once is the request in one go of the earlier layers: same
+   reply, same state of the loop object afterwards ... *)
+Theorem c07_timed_instant_is_request :
+  forall (H K : str -> str) cf bc s pend q d, elapsed q d = 0 ->
+    slow_step H K cf bc (s, pend) q d =
+    let '(s', rp, adm) := bstep H K cf bc s q in
+    ((s', pend), if r_exec_called rp then EvCompleted slow_id q (q_time q) rp else EvReturned slow_id q rp adm).
+Proof. exact slow_instant_proof. Qed.
+Print Assumptions c07_timed_instant_is_request.
+
+(* ... and with agents that need time it is the two halves of an overlapping request with nothing
+   in between, the second half [elapsed q d] after the first: every theorem about overlapping
+   requests applies to it (its cache entry is stamped, and the breaker told, at the later moment). *)
+Theorem c07_timed_slow_is_begin_end :
+  forall (H K : str -> str) cf bc s pend q d x' e,
+    pending_find slow_id pend = None ->
+    slow_step H K cf bc (s, pend) q d = (x', e) ->
+    exists x1 e1 e2,
+      xstep H K cf bc (s, pend) (XBegin slow_id q) = (x1, e1) /\
+      xstep H K cf bc x1 (XEnd slow_id (q_time q + elapsed q d)) = (x', e2) /\
+      ((e = e1 /\ exists n, e2 = EvNoSuch slow_id n) \/ ((exists n, e1 = EvInFlight slow_id q n) /\ e = e2)).
+Proof. exact slow_is_begin_end_proof. Qed.
+Print Assumptions c07_timed_slow_is_begin_end.
+
+(* A verdict that comes late is still the verdict.  In every timed history, for ALL delays [d] and
+   whatever timeout_seconds is at that moment ([tmo], possibly far below [elapsed q d]): the reply
+   to a slow request is produced under the configuration in force; if its agents were asked it is
+   not marked cached and is the gate's outcome on ITS prompt and ITS agents' answers - by
+   c07_pass_iff not blocked iff those verdicts satisfy the configured logic, so a slow assessor's
+   BLOCK blocks under EXECUTOR_PRIORITY -, produced [elapsed q d] after the call; otherwise it was
+   turned away by the breaker or served from the cache at the clock value of the call. *)
+Theorem c07_timed_late_verdict_is_the_verdict :
+  forall (H K : str -> str) tmo0 cf0 bc0 ops i q d,
+    nth_error ops i = Some (TSlow q d) ->
+    exists tmo cf bc e rp,
+      nth_error (ttrace H K tmo0 cf0 bc0 ops) i = Some (tmo, RvOp cf bc e) /\
+      (tmo, (cf, bc)) = tconfig_after (tmo0, (cf0, bc0)) (firstn i ops) /\
+      xreply e = Some (q, rp) /\
+      (r_exec_called rp = true ->
+         r_cached rp = false /\ r_core rp = outcome H cf q /\
+         r_assess_called rp = negb (raised (q_exec q)) /\ r_shown rp = Some (q_prompt q) /\
+         xdone_at e = Some (q_time q + elapsed q d)) /\
+      (r_exec_called rp = false -> xdone_at e = Some (q_time q)).
+Proof. exact timed_slow_is_own_gate_proof. Qed.
+Print Assumptions c07_timed_late_verdict_is_the_verdict.
+
+(* First conjunct, for every reply of every timed history (slow or not, in one go or overlapping,
+   cached or not, any timeouts): a reply that is not blocked is the gate's outcome for a request of
+   the history with the same cache key whose agents' verdicts - however late they came - satisfied
+   the gate logic configured when that request was decided; for a reply that is not a cached one
+   this is the request itself and the logic in force at this very moment. *)
+Theorem c07_timed_pass_only_if :
+  forall (H K : str -> str) tmo0 cf0 bc0 ops i cf bc e q rp,
+    nth_error (untimed (ttrace H K tmo0 cf0 bc0 ops)) i = Some (RvOp cf bc e) -> xreply e = Some (q, rp) ->
+    c_blocked (r_core rp) = false ->
+    exists j ej cfj qj rj,
+      (j <= i)%nat /\ nth_error (untimed (ttrace H K tmo0 cf0 bc0 ops)) j = Some ej /\
+      rreply ej = Some (cfj, qj, rj) /\
+      K (q_prompt qj) = K (q_prompt q) /\ r_cached rj = false /\
+      (r_cached rp = false -> j = i /\ cfj = cf) /\
+      r_core rp = outcome H cfj qj /\
+      spec_pass (cf_logic cfj) (q_exec qj) (q_assess qj) = true.
+Proof. exact timed_pass_only_if_proof. Qed.
+Print Assumptions c07_timed_pass_only_if.
+
+(* Cached replies are identical in verdict to the original, in timed histories: the original is the
+   uncached reply of a request for the SAME prompt that had returned before, and the TTL is counted
+   from the moment that reply was produced - for a slow request [elapsed] after its call. *)
+Theorem c07_timed_cache_same_verdict :
+  forall (H K : str -> str) tmo0 cf0 bc0 ops,
+    (forall a b, treq_in ops a -> treq_in ops b -> K (q_prompt a) = K (q_prompt b) -> q_prompt a = q_prompt b) ->
+    forall i cf bc e q rp,
+      nth_error (untimed (ttrace H K tmo0 cf0 bc0 ops)) i = Some (RvOp cf bc e) -> xreply e = Some (q, rp) ->
+      r_cached rp = true ->
+      exists j ej cfj qj rj tj,
+        (j < i)%nat /\ nth_error (untimed (ttrace H K tmo0 cf0 bc0 ops)) j = Some ej /\
+        rreply ej = Some (cfj, qj, rj) /\
+        rdone_at ej = Some tj /\ q_prompt qj = q_prompt q /\ r_cached rj = false /\
+        r_core rp = r_core rj /\ r_core rj = outcome H cfj qj /\
+        q_time q - tj < cf_ttl cf /\ cf_cache cf = true /\
+        r_exec_called rp = false /\ r_assess_called rp = false.
+Proof. exact timed_cache_same_verdict_proof. Qed.
+Print Assumptions c07_timed_cache_same_verdict.
+
+(* Token conjunct, in timed histories: a token is attached only when the assessor - however slow -
+   said PERMIT to this prompt, is bound to the hash of exactly this prompt and names the assessor. *)
+Theorem c07_timed_token_bound :
+  forall (H K : str -> str) tmo0 cf0 bc0 ops,
+    (forall a b, treq_in ops a -> treq_in ops b -> K (q_prompt a) = K (q_prompt b) -> q_prompt a = q_prompt b) ->
+    forall i cf bc e q rp t,
+      nth_error (untimed (ttrace H K tmo0 cf0 bc0 ops)) i = Some (RvOp cf bc e) -> xreply e = Some (q, rp) ->
+      c_token (r_core rp) = Some t ->
+      tk_hash t = H (q_prompt q) /\ c_blocked (r_core rp) = false /\
+      exists j ej cfj qj rj,
+        (j <= i)%nat /\ nth_error (untimed (ttrace H K tmo0 cf0 bc0 ops)) j = Some ej /\
+        rreply ej = Some (cfj, qj, rj) /\
+        q_prompt qj = q_prompt q /\ r_cached rj = false /\ (r_cached rp = false -> j = i /\ cfj = cf) /\
+        q_assess qj = VPermit /\ tk_issuer t = cf_assessor cfj.
+Proof. exact timed_token_bound_proof. Qed.
+Print Assumptions c07_timed_token_bound.
+
+(* Two loop objects, each with slow agents and a timeout of its own: still no influence. *)
+Theorem c07_timed_loops_isolated :
+  forall (H K : str -> str) tmo0 tmo1 cf0 cf1 bc0 bc1 tops b,
+    proj b (tsys_trace H K tmo0 tmo1 cf0 cf1 bc0 bc1 tops) =
+    ttrace H K (if b then tmo1 else tmo0) (if b then cf1 else cf0) (if b then bc1 else bc0) (proj b tops).
+Proof. exact timed_loops_isolated_proof. Qed.
+Print Assumptions c07_timed_loops_isolated.
 
 (* Generated-data obligations: the table obtained on this run by calling the
    real _apply_gate_logic on every combination is the model's gate, and it
